@@ -338,7 +338,11 @@ class FunctionExtension(Expression):
     ) -> List[object]:
         _args: List[object] = []
         for idx, arg in enumerate(args):
-            if func.arg_types[idx] != ExpressionType.NODES and isinstance(
+            if func.arg_types[idx] == ExpressionType.LOGICAL:
+                # A nodelist converts to "is not empty"; logical expressions
+                # and LogicalType results are true or false already.
+                _args.append(_is_truthy(arg))
+            elif func.arg_types[idx] != ExpressionType.NODES and isinstance(
                 arg, JSONPathNodeList
             ):
                 if len(arg) == 0:
